@@ -7,6 +7,7 @@
    (finite families of refusal prefixes, c01_refusal_is_final / c01_change_user_refusal_is_final). *)
 From Coq Require Import List Arith NArith Lia Bool.
 From MM Require Import Lib.Bytes Model.Conn Proofs.ConnInv Proofs.C10Proofs Proofs.KillProofs Proofs.C01Proofs Gen.FactsConn.
+From MM Require Import Gen.FactsOutline.
 Import ListNotations.
 Open Scope N_scope.
 
@@ -20,6 +21,12 @@ Theorem c01_source_shape :
   err_access_denied_error = E_ACCESS_DENIED /\ err_user_does_not_exist = E_USER_DOES_NOT_EXIST /\
   connection_connection_init___ok = true /\ packets_make_auth_more_data_ok = true.
 Proof. repeat split; reflexivity. Qed.
+
+(* the modules this property rests on define the functions, classes, methods and class-level names they defined when the
+   model was transcribed - nothing added (an override, a new helper in the path), removed or renamed *)
+Theorem c01_module_outlines : translated_outline = true /\ outline_auth_ok = true /\ outline_connection_ok = true.
+Proof. repeat split; reflexivity. Qed.
+
 
 Definition served (o : out) : bool :=
   match o with OSess SInit | OSess SQuery | OSess SReset | OSess SUse => true | _ => false end.
